@@ -471,8 +471,12 @@ def replay(ctx, data):
             def case(self, *a, **k):
                 pass
 
+            def feature(self, *a, **k):
+                pass
+
             def violation(self, kind, what, rep, finding=None):
-                self.violations.append(what)
+                if rep.get('stage') == data.get('stage') and rep.get('pre_existing') == data.get('pre_existing'):
+                    self.violations.append(what)
         c = C()
         same_process(c)
         print('replay:', c.violations or 'no file from the failed call')
